@@ -366,6 +366,30 @@ pub fn shared() {
             put(&r.unwrap_or_else(|p| json!({"kind0": "shared", "what": "content-disposition", "value": n, "ok": false, "panic": p})));
         }
     }
+    // error bodies: every kind that carries fields must come back equal from its own serialization
+    {
+        use ruma_client_api::error::{ErrorKind, StandardErrorBody};
+        let kinds: Vec<(&str, ErrorKind)> = vec![
+            ("WrongRoomKeysVersion", ErrorKind::WrongRoomKeysVersion { current_version: Some("42".to_owned()) }),
+            ("BadStatus", ErrorKind::BadStatus { status: Some(http::StatusCode::BAD_GATEWAY), body: Some("upstream".to_owned()) }),
+            ("BadStatus-empty", ErrorKind::BadStatus { status: None, body: None }),
+            ("UnknownToken", ErrorKind::UnknownToken { soft_logout: true }),
+            ("IncompatibleRoomVersion", ErrorKind::IncompatibleRoomVersion { room_version: ruma_common::RoomVersionId::V9 }),
+            ("ResourceLimitExceeded", ErrorKind::ResourceLimitExceeded { admin_contact: "mailto:a@b".to_owned() }),
+            ("LimitExceeded-ms", ErrorKind::LimitExceeded { retry_after: Some(ruma_client_api::error::RetryAfter::Delay(std::time::Duration::from_millis(2000))) }),
+            ("NotFound", ErrorKind::NotFound),
+        ];
+        for (name, kind) in kinds {
+            let r = guard(|| {
+                let body = StandardErrorBody { kind: kind.clone(), message: "msg".to_owned() };
+                let text = serde_json::to_string(&body).unwrap();
+                let back: Result<StandardErrorBody, _> = serde_json::from_str(&text);
+                let ok = matches!(&back, Ok(b) if b.kind == kind && b.message == "msg");
+                json!({"kind0": "shared", "what": format!("error-body-{name}"), "text": text, "ok": ok})
+            });
+            put(&r.unwrap_or_else(|p| json!({"kind0": "shared", "what": format!("error-body-{name}"), "ok": false, "panic": p})));
+        }
+    }
     // filters: every field alone
     use ruma_client_api::filter::{FilterDefinition, RoomEventFilter};
     let full = json!({"limit": 5, "not_senders": ["@a:s.co"], "not_types": ["m.x"], "senders": ["@b:s.co"], "types": ["m.y"], "not_rooms": ["!a:s.co"], "rooms": ["!b:s.co"],
